@@ -79,7 +79,8 @@ func T(v []types.ByteSequence, i types.U32, hashFunc func(types.ByteSequence) ty
 	if len(v) <= 1 {
 		return output
 	}
-	mid := types.U32(len(v) / 2)
+	// split at ceil(|v|/2), the same point N splits at (E.5)
+	mid := types.U32((len(v) + 1) / 2)
 	var siblingHalf []types.ByteSequence
 	var traverseHalf []types.ByteSequence
 	var newIndex types.U32
